@@ -56,8 +56,7 @@ PROPS = {
     'C01': {'ties': ['tie_ladder', 'tie_docLadder', 'tie_readmeLadder', 'tie_tokenTypes'],
             'digests': pa(PARSER_LADDER + PARSER_PRIM + ['Parser.IfStatement', 'Parser.statement']), 'digest_groups': ['parserDigests'],
             'campaign': F.c01,
-            'partial': ['completeness / uniqueness / parenthesised round trip are proved for expressions; for statements the proved part is soundness (C08) plus the dangling-else theorem, the round trip is enumerated',
-                        '"adding parentheses never changes what a program prints" is proved at tree level (Grouping is transparent to the evaluator) and tested end to end']},
+            'partial': ['"adding parentheses never changes what a program prints" is proved at tree level (Grouping is transparent to the evaluator) and tested end to end']},
     'C02': {'ties': ['tie_tokenTypes'], 'digests': it(*OPS) + ev('Binary', 'Unary'), 'campaign': E.c02,
             'partial': ['IEEE-754 exactness rests on the definitional F64 model tied to the host by correspondence', PLATFORM_NOTE]},
     'C03': {'ties': [], 'digests': en(ENV_ALL) + ev('BlockStmt', 'ForStmt', 'VarStmt', 'VarListStmt', 'AssignmentStmt', 'Identifier', 'FunctionStmt') +
@@ -74,7 +73,8 @@ PROPS = {
     'C08': {'ties': ['tie_reserved', 'tie_maxParams', 'tie_tokenTypes', 'tie_keywords', 'tie_singleOps', 'tie_twoOps', 'tie_otherCases', 'tie_ladder'],
             'digests': pa(PARSER_LADDER + PARSER_STMT + PARSER_PRIM) + lx(LEXER_ALL) + ['mainDigests:run', 'utilsDigests:GlobalError', 'utilsDigests:GlobalErrorToken', 'utilsDigests:report'],
             'digest_groups': ['parserDigests', 'lexerDigests'], 'campaign': F.c08,
-            'partial': ['"the first diagnostic is at the first non-viable token": prefix determinism is by construction of the model; viability of the preceding prefix is checked by enumeration only']},
+            'partial': ['"the first diagnostic is at the first non-viable token": prefix determinism is by construction of the model; viability of the preceding prefix is checked by enumeration only',
+                        'soundness (accepted => rendering of the returned tree) and completeness (well-formed tree => accepted and returned) are proved separately; "every returned tree is well-formed" is proved for its ladder and dangling-else components only']},
     'C09': {'ties': ['tie_keywords', 'tie_singleOps', 'tie_twoOps', 'tie_blanks', 'tie_otherCases', 'tie_isAlpha', 'tie_tokenTypes', 'tie_digitRanges'],
             'digests': lx(LEXER_ALL) + ['utilsDigests:GlobalError', 'utilsDigests:report'], 'digest_groups': ['lexerDigests'], 'campaign': F.c09,
             'partial': ['unicode.IsLetter / IsMark are a parameter of the theorems; the driver uses the range tables extracted from the Go toolchain']},
